@@ -951,6 +951,21 @@ func ruleP11DetermineFirst(p *Prog, r *Report) {
 	n, recv, _, _ := methodCall(set.Common().Args[1])
 	okVal := n == "Indentation" && rangeElemOf(recv) != nil
 	r.check(okVal, rule, "value", p.instrPos(set), "indentation is read off a line of the record's block", "the indentation recorded is not a line's Indentation()")
+	// … of the record's OWN lines: the blank lines of a block (those before and after the record)
+	// may hold any whitespace and may end differently. Reading the style off block.Lines() made
+	// `track` fail on "  \n1855-04-25\n    1h\n" and insert LF lines into the CRLF record of
+	// "\n1855-04-25\r\n    1h\r\n" (D14).
+	ownLines := func(coll ssa.Value) bool {
+		c, idx := callOf(coll)
+		if c == nil || idx != 0 {
+			return false
+		}
+		nm, _, _, _ := methodCallOf(c)
+		return nm == "SignificantLines"
+	}
+	if okVal {
+		r.check(ownLines(rangeElemOf(recv)), rule, "value:own-lines", p.instrPos(set), "only the record's own (significant) lines are searched for the indentation", "the indentation is searched in all lines of the block, blank lines included: a whitespace-only line before or after the record is taken for the record's indentation")
+	}
 	nonEmpty := false
 	for _, g := range guardsOf(set.Block()) {
 		if bo, ok := g.Cond.(*ssa.BinOp); ok {
@@ -968,8 +983,9 @@ func ruleP11DetermineFirst(p *Prog, r *Report) {
 		}
 	}
 	r.check(!again, rule, "first-line", p.instrPos(set), "the loop stops at the first indented line", "a later (deeper indented) line can overwrite the indentation read from the first one")
-	// line ending from the first line of the block
-	okLE := false
+	// line ending from the first line of the record
+	okLE, okLEOwn := false, false
+	var leAt ssa.CallInstruction
 	eachInstr(f, func(in ssa.Instruction) {
 		c, ok := in.(ssa.CallInstruction)
 		if !ok || staticCallee(c) == nil || fnBase(staticCallee(c)) != "Set" {
@@ -981,12 +997,40 @@ func ruleP11DetermineFirst(p *Prog, r *Report) {
 				if ia, ok := strip(base).(*ssa.IndexAddr); ok {
 					if k, isK := constInt(ia.Index); isK && k == 0 {
 						okLE = true
+						okLEOwn = ownLines(ia.X)
+						leAt = c
 					}
 				}
 			}
 		}
 	})
 	r.check(okLE, rule, "line-ending", p.pos(f.Pos()), "the line ending is read off the block's first line", "the line ending is not taken from the first line of the record's block")
+	if okLE {
+		r.check(okLEOwn, rule, "line-ending:own-lines", p.instrPos(leAt), "the line ending is that of the record's own first line (the headline)", "the line ending is read off the first line of the block, which is a blank line when blank lines precede the record: lines inserted into a CRLF record after a leading LF blank line end in LF")
+		// … for every record: no way through determine() goes round the test that leads to it
+		// (an early return for, say, records without entries leaves them with the default ending)
+		// (the only reasons not to record it: there is no line, or the line has no ending)
+		round := ""
+		for _, g := range guardsOf(leAt.Block()) {
+			if g.If == nil || isLoopGuard(g) || isLoopGuard(Guard{Cond: g.Cond, Pol: !g.Pol, If: g.If}) {
+				continue
+			}
+			okG := false
+			if x, isEmpty, isG := emptyGuard(g); isG && !isEmpty {
+				if _, fld := fieldLoad(x); fld == "LineEnding" {
+					okG = true
+				} else if c, idx := callOf(x); c != nil && idx == 0 {
+					if nm, _, _, _ := methodCallOf(c); nm == "SignificantLines" || nm == "Lines" {
+						okG = true
+					}
+				}
+			}
+			if !okG {
+				round = g.Cond.String() + " at " + p.instrPos(g.If)
+			}
+		}
+		r.check(round == "", rule, "line-ending:every-record", p.instrPos(leAt), "the line ending is recorded unless there is no line or the line has no ending", "whether determine() looks at the record's line ending also depends on "+round+": records for which that does not hold neither exhibit nor vote for their own line ending, and lines added to them end in the default \\n")
+	}
 }
 
 // globalStrings evaluates `var name = []string{...}` / `var name = "..."` in a module package.
@@ -1063,6 +1107,17 @@ func ruleP11Defaults(p *Prog, r *Report) {
 		if !ok {
 			return
 		}
+		// a whole property built by a constructor helper: style.<prop> = newProp(value)
+		if typeNameOf(fa.X.Type()) == "style" {
+			if val, expl, isLit := styleLitOf(st.Val); isLit {
+				if s, isS := constString(val); isS {
+					got[fieldName(fa)] = s
+				}
+				if expl {
+					explicit[fieldName(fa)] = true
+				}
+			}
+		}
 		// styleProp literal stores: t.value / t.isExplicit where t = &style.<prop>
 		if outer, ok := fa.X.(*ssa.FieldAddr); ok && typeNameOf(outer.X.Type()) == "style" {
 			switch fieldName(fa) {
@@ -1080,4 +1135,59 @@ func ruleP11Defaults(p *Prog, r *Report) {
 	r.check(got["lineEnding"] == "\n" && contains(ends, got["lineEnding"]), rule, "line-ending", p.pos(f.Pos()), "default line ending is LF and is in txt.LineEndings", fmt.Sprintf("default line ending %q is not LF / not accepted by the parser", got["lineEnding"]))
 	r.check(got["indentation"] == "    " && contains(inds, got["indentation"]), rule, "indentation", p.pos(f.Pos()), "default indentation is four spaces and is in txt.Indentations", fmt.Sprintf("default indentation %q is not four spaces / not accepted by the parser", got["indentation"]))
 	r.check(len(explicit) == 0, rule, "not-explicit", p.pos(f.Pos()), "defaults are not marked explicit (so the file's style can override them)", "a default style value is marked explicit and can never be overridden by the file's own style")
+}
+
+// styleLitOf: v is a styleProp built by a constructor function whose body is
+// `return styleProp[T]{<param or constant>, <constant>}`: the value (mapped to the call's
+// argument) and the explicit flag.
+func styleLitOf(v ssa.Value) (value ssa.Value, explicit bool, ok bool) {
+	c, isC := plainDeref(v).(*ssa.Call)
+	if !isC || c.Call.IsInvoke() || gp == nil {
+		return nil, false, false
+	}
+	g := rawStaticCallee(c)
+	if g == nil || !gp.inMod(g) || len(g.Blocks) != 1 {
+		return nil, false, false
+	}
+	rets := plainReturnsOf(g)
+	if len(rets) != 1 || len(rets[0].Results) != 1 {
+		return nil, false, false
+	}
+	u, isU := plainDeref(rets[0].Results[0]).(*ssa.UnOp)
+	if !isU || u.Op != token.MUL {
+		return nil, false, false
+	}
+	lit, isA := u.X.(*ssa.Alloc)
+	if !isA || lit.Referrers() == nil {
+		return nil, false, false
+	}
+	for _, ref := range *lit.Referrers() {
+		fa, isFA := ref.(*ssa.FieldAddr)
+		if !isFA || fa.Referrers() == nil {
+			continue
+		}
+		for _, r2 := range *fa.Referrers() {
+			st, isS := r2.(*ssa.Store)
+			if !isS || st.Addr != ssa.Value(fa) {
+				continue
+			}
+			switch fieldName(fa) {
+			case "value":
+				value = st.Val
+				for i, prm := range g.Params {
+					if plainDeref(st.Val) == ssa.Value(prm) && i < len(c.Call.Args) {
+						value = c.Call.Args[i]
+					}
+				}
+				ok = true
+			case "isExplicit":
+				if b, isB := constBool(st.Val); isB {
+					explicit = b
+				} else {
+					return nil, false, false
+				}
+			}
+		}
+	}
+	return value, explicit, ok
 }
